@@ -102,14 +102,16 @@ _ORDERS = ['asis', 'asis', 'sorted', 'revsorted', 'perm']
 
 
 @st.composite
-def bond_charges(draw, L, steps, q0=0, Dmax=5, junk=True, disjoint_prob=0.04):
+def bond_charges(draw, L, steps, q0=0, Dmax=5, junk=True, disjoint_prob=0.04, base=None):
     """
     Bond charge lists qD[0..L] for increments `steps` (qD[i+1] = qD[i] + step): charges along
     1..3 complete paths (so the object is generically non-zero), extra charges that lie on some
     path, optional junk charges, in a drawn order; outer bonds have dimension 1.
     """
     steps = list(steps)
-    base = draw(st.lists(st.integers(0, len(steps) - 1), min_size=L, max_size=L))
+    if base is None:
+        base = draw(st.lists(st.integers(0, len(steps) - 1), min_size=L, max_size=L))
+    base = list(base)
     npaths = draw(st.integers(1, 3))
     paths = [base] + [draw(st.permutations(base)) for _ in range(npaths - 1)]
     Q = q0 + sum(steps[k] for k in base)
@@ -344,3 +346,84 @@ def block_matrix(q0, q1, seed, style):
         if rng.random() < 0.5:
             A[rng.integers(0, len(q0))] = A[rng.integers(0, len(q0))]
     return np.where(q0a[:, None] == q1a[None, :], A, 0)
+
+
+# --------------------------------------------------------------------------------------
+# compatible families of objects
+
+
+@st.composite
+def sector_family(draw, n_mps=2, n_mpo=0, Lmin=1, Lmax=5, dmin=1, dmax=3, Dmax=4, dense_cap=1024,
+                  styles=FLOAT_STYLES, zero_shift_ops=True, same_boundary_ops=True, q0s=(0, 0, 1, -2)):
+    """
+    n_mps states in one charge sector (same qd, L, leading and total charge; independent bond profiles) and
+    n_mpo operators (zero total shift if zero_shift_ops, else a common shift when same_boundary_ops).
+    """
+    qd = draw(qd_strategy(dmin, dmax))
+    d = len(qd)
+    Lcap = Lmax
+    while Lcap > Lmin and d ** Lcap > dense_cap:
+        Lcap -= 1
+    L = draw(st.sampled_from(_pref_order(Lmin, max(Lmin, Lcap))))
+    q0 = draw(st.sampled_from(list(q0s)))
+    base = draw(st.lists(st.integers(0, d - 1), min_size=L, max_size=L))
+    out = {'mps': [], 'mpo': []}
+    for k in range(n_mps):
+        b = base if k == 0 else list(draw(st.permutations(base)))
+        qD = draw(bond_charges(L, qd, q0=q0, Dmax=Dmax, base=b, disjoint_prob=0.02))
+        out['mps'].append({'qd': [int(q) for q in qd], 'qD': qD, 'seed': draw(st.integers(0, 2**31 - 1)),
+                           'style': draw(st.sampled_from(styles))})
+    steps = mpo_steps(qd)
+    if n_mpo:
+        if zero_shift_ops:
+            for k in range(n_mpo):
+                qD = draw(bond_charges_zero_shift(L, steps, Dmax=Dmax))
+                out['mpo'].append({'qd': [int(q) for q in qd], 'qD': qD, 'seed': draw(st.integers(0, 2**31 - 1)),
+                                   'style': draw(st.sampled_from(styles))})
+        else:
+            p0 = draw(st.sampled_from([0, 0, 1, -1]))
+            obase = draw(st.lists(st.integers(0, len(steps) - 1), min_size=L, max_size=L))
+            for k in range(n_mpo):
+                if same_boundary_ops:
+                    b = obase if k == 0 else list(draw(st.permutations(obase)))
+                    pk = p0
+                else:
+                    b = None
+                    pk = draw(st.sampled_from([0, 0, 1, -1]))
+                qD = draw(bond_charges(L, steps, q0=pk, Dmax=Dmax, base=b, disjoint_prob=0.02))
+                out['mpo'].append({'qd': [int(q) for q in qd], 'qD': qD, 'seed': draw(st.integers(0, 2**31 - 1)),
+                                   'style': draw(st.sampled_from(styles))})
+    return out
+
+
+@st.composite
+def matrix_element_triple(draw, Lmin=1, Lmax=5, dmin=1, dmax=3, Dmax=4, dense_cap=1024, styles=FLOAT_STYLES):
+    """
+    (chi, op, psi, rho) sharing a path of physical index pairs (s_i, t_i): <chi|op|psi> and tr(op rho)
+    are generically non-zero; the operator has an arbitrary total shift.
+    """
+    qd = draw(qd_strategy(dmin, dmax))
+    d = len(qd)
+    Lcap = Lmax
+    while Lcap > Lmin and d ** Lcap > dense_cap:
+        Lcap -= 1
+    L = draw(st.sampled_from(_pref_order(Lmin, max(Lmin, Lcap))))
+    s_idx = draw(st.lists(st.integers(0, d - 1), min_size=L, max_size=L))
+    if draw(st.booleans()):
+        t_idx = list(draw(st.permutations(s_idx)))      # zero total shift
+    else:
+        t_idx = draw(st.lists(st.integers(0, d - 1), min_size=L, max_size=L))
+    steps = mpo_steps(qd)
+    obase = [steps.index(qd[s] - qd[t]) for s, t in zip(s_idx, t_idx)]
+    rbase = [steps.index(qd[t] - qd[s]) for s, t in zip(s_idx, t_idx)]
+    q0 = draw(st.sampled_from([0, 0, 1]))
+    p0 = draw(st.sampled_from([0, 0, -1]))
+
+    def mk(qD):
+        return {'qd': [int(q) for q in qd], 'qD': qD, 'seed': draw(st.integers(0, 2**31 - 1)),
+                'style': draw(st.sampled_from(styles))}
+    psi = mk(draw(bond_charges(L, qd, q0=q0, Dmax=Dmax, base=t_idx, disjoint_prob=0.02)))
+    chi = mk(draw(bond_charges(L, qd, q0=q0 + p0, Dmax=Dmax, base=s_idx, disjoint_prob=0.02)))
+    op = mk(draw(bond_charges(L, steps, q0=p0, Dmax=Dmax, base=obase, disjoint_prob=0.02)))
+    rho = mk(draw(bond_charges(L, steps, q0=draw(st.sampled_from([0, 1])), Dmax=Dmax, base=rbase, disjoint_prob=0.02)))
+    return {'chi': chi, 'op': op, 'psi': psi, 'rho': rho}
